@@ -6,7 +6,7 @@ import HmsProofs.Lemmas.ValCast
 Property theorems only; lemmas live in `HmsProofs/Lemmas/ValCast.lean` and `ValEq.lean`.
 
 `castAll allow T v path` (Hms/Value/Cast.lean) is the model of `DeepCast`/`deepCastRecursive` of
-both value libraries after the proposed fixes X1, X13a, X15, X16; `allow` is the `allowCasts`
+both value libraries after the proposed fixes X1, X13a, X21, X22; `allow` is the `allowCasts`
 flag (`true` for `expr as T`, `false` for annotated `let`, host arguments and return values).
 On failure it yields *all* errors some map iteration order of the Go code can report; the
 error theorems quantify over all of them.
